@@ -641,3 +641,80 @@ Proof.
   unfold to_escale in *. rewrite map_app in *. cbn [map fst snd] in *.
   apply (calc_linear_average_def _ t0 r0 (Fin t1) r1 _ b Hs). exact Hb.
 Qed.
+
+(* ------------------------------------------------------------------------- *)
+(** * [marginal_tax] is the textbook piecewise-linear function                 *)
+(* ------------------------------------------------------------------------- *)
+
+Lemma overlap_zero : forall lo hi b, b <= lo -> overlap lo hi b == 0.
+Proof. intros lo [h|] b H; cbn [overlap]; qminmax; lra. Qed.
+
+Lemma overlap_inside : forall lo hi b,
+  lo <= b -> match hi with Fin h => b <= h | Inf => True end -> overlap lo hi b == b - lo.
+Proof. intros lo [h|] b H1 H2; cbn [overlap]; qminmax; lra. Qed.
+
+Lemma marginal_tax_zero_below : forall b s,
+  Forall (fun x => b <= fst x) s -> marginal_tax b s == 0.
+Proof.
+  intros b s H. induction H as [|[t r] s Ht _ IH]; [reflexivity|].
+  cbn [marginal_tax fst] in *. rewrite IH, (overlap_zero _ _ _ Ht). ring.
+Qed.
+
+(** On a sorted scale: 0 up to the first threshold, and inside (the closure of) the
+    bracket starting at t with rate r:  tax(b) = tax(t) + r * (b - t). *)
+Theorem marginal_tax_piecewise_linear : forall pre t r post b,
+  sorted (pre ++ (t, r) :: post) ->
+  t <= b -> match upper_end post with Fin h => b <= h | Inf => True end ->
+  marginal_tax b (pre ++ (t, r) :: post) == marginal_tax t (pre ++ (t, r) :: post) + r * (b - t).
+Proof.
+  induction pre as [|[u q] pre IH]; intros t r post b Hs Hlo Hhi.
+  - cbn [app marginal_tax]. pose proof (sorted_above _ _ _ Hs) as Ha.
+    assert (Hz : forall x, t <= x -> match upper_end post with Fin h => x <= h | Inf => True end ->
+                           marginal_tax x post == 0).
+    { intros x Hx Hxh. apply marginal_tax_zero_below. destruct post as [|[v p] post]; [constructor|].
+      cbn [upper_end] in Hxh. apply sorted_tail in Hs. pose proof (sorted_above _ _ _ Hs) as Ha'.
+      constructor; [exact Hxh|]. eapply Forall_impl; [|exact Ha']. intros y Hy. cbn beta in *. cbn [fst]. lra. }
+    rewrite (Hz b Hlo Hhi).
+    rewrite (Hz t (Qle_refl t)) by (destruct (upper_end post); [lra|exact I]).
+    rewrite (overlap_inside _ _ _ Hlo Hhi), (overlap_zero t _ t (Qle_refl t)). ring.
+  - cbn [app marginal_tax]. pose proof (sorted_above _ _ _ Hs) as Ha.
+    rewrite (IH t r post b (sorted_tail _ _ Hs) Hlo Hhi).
+    assert (Hue : exists h, upper_end (pre ++ (t, r) :: post) = Fin h /\ h <= t).
+    { destruct pre as [|[v p] pre]; cbn [app upper_end].
+      - exists t. split; [reflexivity|apply Qle_refl].
+      - exists v. split; [reflexivity|]. cbn [app] in Hs. apply sorted_tail in Hs.
+        destruct (sorted_app_inv ((v, p) :: pre) t r post Hs) as [Hp _].
+        inversion Hp; subst. cbn [fst] in *. lra. }
+    destruct Hue as [h [Eh Hh]]. rewrite Eh. cbn [overlap].
+    assert (E1 : Qmin b h == h) by (apply Q.min_r; lra).
+    assert (E2 : Qmin t h == h) by (apply Q.min_r; lra).
+    rewrite E1, E2. ring.
+Qed.
+
+(* ------------------------------------------------------------------------- *)
+(** * The same for scales given by their add_bracket calls                     *)
+(* ------------------------------------------------------------------------- *)
+
+Corollary calc_marginal_amount_def_build : forall calls bases,
+  Forall2 Qeq (calc_marginal_amount (build calls) bases)
+              (map (fun b => amounts_below b (build calls)) bases).
+Proof. intros. apply calc_marginal_amount_def. apply build_sorted. Qed.
+
+Lemma shift_thresholds_seq : forall m s s', seq s s' -> seq (shift_thresholds m s) (shift_thresholds m s').
+Proof.
+  intros m s s' H. induction H as [|[t r] [t' r'] s s' [Ht Hr] _ IH]; constructor; [|exact IH].
+  cbn [fst snd] in *. split; cbn [fst snd]; [rewrite Ht; reflexivity|exact Hr].
+Qed.
+
+(** the tax does not depend on the order of the add_bracket calls *)
+Corollary calc_marginal_order_irrelevant : forall eps factor calls1 calls2 bases,
+  Permutation calls1 calls2 ->
+  Forall2 Qeq (calc_marginal eps factor None (build calls1) bases)
+              (calc_marginal eps factor None (build calls2) bases).
+Proof.
+  intros eps factor c1 c2 bases H.
+  eapply Forall2_Qeq_trans; [apply calc_marginal_def|].
+  eapply Forall2_Qeq_trans; [|apply Forall2_Qeq_sym; apply calc_marginal_def].
+  induction bases as [|b bs IH]; constructor; [|exact IH].
+  apply marginal_tax_seq. apply shift_thresholds_seq. apply build_perm. exact H.
+Qed.
